@@ -75,6 +75,8 @@ class Engine:
         self.solver.add(c)
         self.pc.append(c)
         self.model = None
+        if isinstance(c, z3.BoolRef):
+            self._bound_update(z3.simplify(c))
 
     def assume(self, cond):
         cond = tobool(cond)
@@ -97,6 +99,92 @@ class Engine:
             self.model = m
         return self.model
 
+    # -- bound cache: consequences of the PC of the form lo </<= x </<= hi for single variables.  Conditions that are
+    #    implied (or refuted) by these bounds are answered without a solver call; every fork and every verification
+    #    condition still goes to z3.  Sound because the cached bounds are themselves entailed by the PC.
+    def _atom(self, c):
+        """(var_name, op, Fraction) for x<=c, x>=c, x<c, x>c on a single Real/Int variable; else None"""
+        neg = False
+        if z3.is_not(c):
+            neg, c = True, c.arg(0)
+        if not (z3.is_le(c) or z3.is_ge(c) or z3.is_lt(c) or z3.is_gt(c)):
+            return None
+        a, b = c.arg(0), c.arg(1)
+        op = '<=' if z3.is_le(c) else '>=' if z3.is_ge(c) else '<' if z3.is_lt(c) else '>'
+        if is_num(a) and z3.is_const(b) and not is_num(b):
+            a, b = b, a
+            op = {'<=': '>=', '>=': '<=', '<': '>', '>': '<'}[op]
+        if not (z3.is_const(a) and not is_num(a) and is_num(b) and a.decl().kind() == z3.Z3_OP_UNINTERPRETED):
+            return None
+        if neg:
+            op = {'<=': '>', '>=': '<', '<': '>=', '>': '<='}[op]
+        return a.decl().name(), op, numval(b)
+
+    def _atom_eval(self, at):
+        name, op, c = at
+        b = self.bounds.get(name)
+        if b is None:
+            return None
+        lo, lo_s, hi, hi_s = b
+        if op == '<=':
+            if hi is not None and hi <= c:
+                return True
+            if lo is not None and (lo > c or (lo == c and lo_s)):
+                return False
+        elif op == '<':
+            if hi is not None and (hi < c or (hi == c and hi_s)):
+                return True
+            if lo is not None and lo >= c:
+                return False
+        elif op == '>=':
+            if lo is not None and lo >= c:
+                return True
+            if hi is not None and (hi < c or (hi == c and hi_s)):
+                return False
+        elif op == '>':
+            if lo is not None and (lo > c or (lo == c and lo_s)):
+                return True
+            if hi is not None and hi <= c:
+                return False
+        return None
+
+    def _bound_eval(self, cond):
+        at = self._atom(cond)
+        if at is not None:
+            return self._atom_eval(at)
+        if z3.is_and(cond):
+            vals = []
+            for ch in cond.children():
+                a = self._atom(ch)
+                v = self._atom_eval(a) if a is not None else None
+                if v is False:
+                    return False
+                vals.append(v)
+            if all(v is True for v in vals):
+                return True
+        return None
+
+    def _bound_update(self, c):
+        """record the bound expressed by a constraint that has just been added to the PC"""
+        if z3.is_and(c):
+            for ch in c.children():
+                self._bound_update(ch)
+            return
+        at = self._atom(c)
+        if at is None:
+            return
+        name, op, v = at
+        lo, lo_s, hi, hi_s = self.bounds.get(name, (None, False, None, False))
+        if op in ('<=', '<'):
+            strict = op == '<'
+            if hi is None or v < hi or (v == hi and strict and not hi_s):
+                hi, hi_s = v, strict
+        else:
+            strict = op == '>'
+            if lo is None or v > lo or (v == lo and strict and not lo_s):
+                lo, lo_s = v, strict
+        self.bounds[name] = (lo, lo_s, hi, hi_s)
+
     def decide(self, cond):
         """cond: z3 BoolRef -> python bool, forking when both sides are feasible."""
         cond = z3.simplify(cond)
@@ -104,6 +192,10 @@ class Engine:
             return True
         if z3.is_false(cond):
             return False
+        bv = self._bound_eval(cond)      # deterministic along a path, hence identical when a prefix is replayed
+        if bv is not None:
+            self.stats['cached'] = self.stats.get('cached', 0) + 1
+            return bv
         self.stats['decisions'] += 1
         k = len(self.trace)
         if k < len(self.prefix):
@@ -112,6 +204,7 @@ class Engine:
             c = cond if d else z3.Not(cond)
             self.solver.add(c)
             self.pc.append(c)
+            self._bound_update(z3.simplify(c))
             self.model = None
             return d
         if self.max_seconds is not None and time.time() - self.t0 > self.max_seconds:
@@ -161,6 +254,7 @@ class Engine:
         c = cond if d else z3.Not(cond)
         self.solver.add(c)
         self.pc.append(c)
+        self._bound_update(z3.simplify(c))
         return d
 
     def concretize_int(self, term):
@@ -177,7 +271,7 @@ class Engine:
         """If the path condition fixes the value of `term`, return it (Fraction); otherwise None."""
         term = z3.simplify(term)
         if is_num(term):
-            return term.as_fraction()
+            return numval(term)
         key = 'det:' + term.sexpr()
         if key in self.memo and self.memo[key][0] == len(self.pc):
             return self.memo[key][1]
@@ -244,6 +338,7 @@ class Engine:
             self.model = None
             self.notes = {}
             self.prefer = []
+            self.bounds = {}
             self.solver = z3.Solver()
             self.solver.set('timeout', self.timeout_ms)
             Engine.cur = self
@@ -393,6 +488,13 @@ def is_num(t):
     return z3.is_rational_value(t) or z3.is_int_value(t)
 
 
+def numval(t):
+    """exact value (Fraction) of a z3 numeral of either sort"""
+    if z3.is_int_value(t):
+        return fractions.Fraction(t.as_long())
+    return t.as_fraction()
+
+
 # ------------------------------------------------------------------------------------------------
 class SymBool:
     __slots__ = ('t',)
@@ -489,7 +591,7 @@ class Sym:
     def __abs__(self):
         t = z3.simplify(self.t)
         if is_num(t):
-            return Sym(t if t.as_fraction() >= 0 else z3.simplify(-t))
+            return Sym(t if numval(t) >= 0 else z3.simplify(-t))
         e = E()
         if e is not None and getattr(e, 'solver', None) is not None:
             # resolve the sign when the path condition already implies it (no fork); otherwise keep it symbolic
@@ -510,7 +612,7 @@ class Sym:
         b = z3.simplify(b)
         a = z3.simplify(a)
         if is_num(b):
-            if b.as_fraction() == 0:
+            if numval(b) == 0:
                 raise ZeroDivisionError('division by zero')
             return Sym(z3.simplify(a / b))
         if bool(SymBool(b == 0)):
@@ -556,7 +658,7 @@ class Sym:
         if isinstance(o, Sym):
             ot = z3.simplify(o.t)
             if is_num(ot):
-                f = ot.as_fraction()
+                f = numval(ot)
                 o = int(f) if f.denominator == 1 else float(f)
         if isinstance(o, float) and o.is_integer():
             o = int(o)
@@ -618,7 +720,7 @@ class Sym:
     def __float__(self):
         t = z3.simplify(self.t)
         if is_num(t):
-            return float(t.as_fraction())
+            return float(numval(t))
         raise Unsupported('float() on symbolic (C boundary)')
 
     # numpy object-dtype ufunc hooks
@@ -699,7 +801,7 @@ def sym_int(x):
         return x
     t = z3.simplify(x.t)
     if is_num(t):
-        return Sym(z3.IntVal(int(t.as_fraction())))
+        return Sym(z3.IntVal(int(numval(t))))
     if bool(x >= 0):
         return sym_floor(x)
     return sym_ceil(x)
@@ -746,7 +848,7 @@ def sym_sqrt_exact(x):
     e = E()
     t = z3.simplify(toreal(x.t))
     if is_num(t):
-        return math.sqrt(float(t.as_fraction()))
+        return math.sqrt(float(numval(t)))
     key = 'sqrt:' + t.sexpr()
     if key in e.memo:
         return Sym(e.memo[key])
@@ -766,7 +868,7 @@ def sym_sqrt(x):
     e = E()
     t = z3.simplify(toreal(x.t))
     if is_num(t):
-        return math.sqrt(float(t.as_fraction()))
+        return math.sqrt(float(numval(t)))
     key = 'sqrtabs:' + t.sexpr()
     if key in e.memo:
         return Sym(e.memo[key])
@@ -789,7 +891,7 @@ def sym_log(x):
         return math.log(x)
     t = z3.simplify(toreal(x.t))
     if is_num(t):
-        return math.log(float(t.as_fraction()))
+        return math.log(float(numval(t)))
     if bool(SymBool(t <= 0)):
         raise ValueError('math domain error')
     return Sym(LN(t))
@@ -817,7 +919,7 @@ def sym_log_product(x):
     e = E()
     t = z3.simplify(toreal(x.t), som=True)
     if is_num(t):
-        return math.log(float(t.as_fraction()))
+        return math.log(float(numval(t)))
     if bool(SymBool(t <= 0)):
         raise ValueError('math domain error')
     monos = list(t.children()) if z3.is_add(t) else [t]
@@ -852,7 +954,7 @@ def sym_log_product(x):
         const = z3.RealVal(1)
     total = z3.RealVal(0)
     if not z3.simplify(const).eq(z3.RealVal(1)):
-        c = const.as_fraction()
+        c = numval(const)
         if c <= 0:
             return Sym(LN(t))
         total = total + z3.RealVal(repr(math.log(float(c))))
@@ -870,7 +972,7 @@ def sym_log_product(x):
         total = total + sgn * LN(base)
     if rest is not None:
         if is_num(rest):
-            total = total + z3.RealVal(repr(math.log(float(rest.as_fraction()))))
+            total = total + z3.RealVal(repr(math.log(float(numval(rest)))))
         else:
             total = total + LN(rest)
     return Sym(z3.simplify(total))
